@@ -56,12 +56,15 @@ def gen_cases(ctx, return_logprobs=False, n_cases=None):
         n = int(rng.choice([1, 2, 3, 5, 8, 17, 40, 90, 200, 400], p=[.05, .08, .08, .1, .15, .2, .15, .1, .06, .03]))
         path = ["inmem", "file_obj", "file_name"][int(rng.integers(0, 3))]
         driver = "api" if k % 6 == 5 else "stub"
+        if k % 12 == 5:
+            path = "inmem"  # the `warm` cases below: the library object has been through an earlier in-memory call
         kind = kinds[int(rng.integers(0, len(kinds)))]
         if kind == "ninf" and n == 1:
             kind = "flat"
         maxpost = [None, 1, 2, int(rng.integers(1, n + 2)), n + 7][int(rng.integers(0, 5))]
         n_prior = None if (path == "inmem" or rng.random() < 0.5) else int(rng.integers(1, n + 1))
-        cases.append(dict(n=n, kind=kind, seed=int(rng.integers(0, 2**31)), path=path, driver=driver, maxpost=maxpost, n_prior=n_prior,
+        warm = driver == "api" and path == "inmem" and k % 12 == 5
+        cases.append(dict(warm=warm, n=n, kind=kind, seed=int(rng.integers(0, 2**31)), path=path, driver=driver, maxpost=maxpost, n_prior=n_prior,
                           n_linear=int(rng.integers(1, 4)), randomize=bool(rng.random() < 0.5),
                           n_batches=[None, 1, 3, n + 1][int(rng.integers(0, 4))], return_logprobs=return_logprobs))
     return cases
@@ -72,7 +75,7 @@ def run_impl(ctx, case):
     from thejoker.thejoker import TheJoker
 
     n = case["n"]
-    lib = S.make_library(n, seed=case["seed"] % 1000, with_lnprior=True, alt_units=case["seed"] % 3 == 0)
+    lib = S.make_library(n, seed=case["seed"] % 1000, with_lnprior=True, alt_units=case["seed"] % 3 == 0 or bool(case.get("warm")))
     rec = S.RecGen(case["seed"])
     joker = TheJoker(real_prior(), rng=rec)
     stub = None
@@ -94,6 +97,14 @@ def run_impl(ctx, case):
         kw.update(n_prior_samples=case["n_prior"], n_batches=case["n_batches"], randomize_prior_order=case["randomize"])
     elif case["randomize"]:
         kw.update(randomize_prior_order=True)  # the in-memory path documents no shuffling; whatever it does, rows keep their own values
+    if case.get("warm"):
+        # the same library object was used before, for the same observations expressed in m/s: nothing of that call may leak into this one
+        import astropy.units as u
+        from thejoker.data import RVData
+
+        d0 = real_data()
+        dm = RVData(d0.t, d0.rv.to(u.m / u.s), d0.rv_err.to(u.m / u.s))
+        TheJoker(real_prior(), rng=np.random.default_rng(case["seed"])).rejection_sample(dm, ps, in_memory=True, max_posterior_samples=1)
     try:
         samples, lls = joker.rejection_sample(data, ps, **kw)
     finally:
